@@ -52,7 +52,7 @@ SDS_KINDS = ['arg', 'argTmp', 'shell', 'defStr', 'defPath', 'defCd', 'file', 'fi
 SYM_KINDS = ['strArg', 'listArg', 'listDef', 'shellStr', 'envStr', 'fileStr', 'progSym', 'timeoutInt', 'cleanupArg', 'exitCode',
              'numLines', 'lineNum', 'lineNums', 'equalsStr', 'matchesRx', 'pathExists', 'textMatcher', 'textTransformer',
              'intMatcher', 'lineMatcher', 'textMatcherAnd', 'intMatcherOr', 'lineMatcherAnd', 'textTransformerSeq',
-             'defStr', 'hereDoc', 'replaceStr', 'runArg', 'fileMatcher', 'filesMatcher', 'pathRelDef', 'pathRelDef2']
+             'defStr', 'hereDoc', 'replaceStr', 'runArg', 'fileMatcher', 'filesMatcher', 'pathRelDef', 'pathRelDef2', 'fileDestSym']
 # (finding D13, fixed in /repo: the range of `filter -line-nums` in an instruction of a suite kept the value of the
 # first case of the run - the deviation LineNumsRangeCached of the specification, which TLC must refute in every run)
 # deviation -> (the invariant TLC must refute, the family that shows it)
@@ -229,6 +229,7 @@ SYM_ASSERT = {
     'fileMatcher': ['exists -rel-tmp own.txt : V_FM'],
     'filesMatcher': ['dir-contents -rel-tmp . : V_FSM'],
     'pathRelDef': ['def path K_B = -rel V_D m.txt', 'exists @[K_B]@ : type file'],
+    'fileDestSym': ['file -rel V_D kf.txt = x', 'exists -rel V_D kf.txt : type file'],
     'pathRelDef2': ['def path K_C1 = -rel V_D .', 'def path K_C2 = -rel K_C1 m.txt', 'exists @[K_C2]@ : type file'],
 }
 
